@@ -5,7 +5,8 @@
    bound is exceeded, with the first out-of-line byte and the worst excess, for the replay.     *)
 EXTENDS SlicerBounds, SlicerCfgs, Json
 
-CfgSet == {CfgList[i] : i \in 1..Len(CfgList)}
+\* LET: the list (thousands of records) is evaluated once, not once per index
+CfgSet == LET L == CfgList IN {L[i] : i \in 1..Len(L)}
 
 Bad == Reading /\ hi >= Limit(C)
 
@@ -19,20 +20,31 @@ SetToSeq(S) == LET RECURSIVE f(_)
                IN f(S)
 Behind(c, a, b) == SetToSeq({x \in {(ByteLo(c, s) + d) : s \in a..b, d \in 0..c.wide} : x >= Limit(c)})
 
-\* survey: one line per scan step at which the line bound is exceeded (printed at the last bit, the worst one)
-Report ==
-  IF pc = "bits" /\ k + 1 = DataBits(C) /\ Bad
-  THEN LET j == FirstBadBit(C, n) IN
-       PrintT(<<"TR", ToJson([c |-> C.id, ph |-> "bits", n |-> n, k |-> j,
-                              bad |-> [i \in 1..Len(Behind(C, BitFirst(C, n, j), BitLast(C, n, j))) |->
-                                          Behind(C, BitFirst(C, n, j), BitLast(C, n, j))[i] - Limit(C)],
-                              ex |-> hi + 1 - Limit(C), img |-> IF hi >= 2 * Limit(C) THEN 1 ELSE 0])>>)
-  ELSE IF pc \in {"pro", "scan"} /\ Bad
-  THEN LET a == IF pc = "pro" THEN 0 ELSE ScanFirst(C, n)
-           b == IF pc = "pro" THEN Window - 1 ELSE ScanLast(C, n) IN
-       PrintT(<<"TR", ToJson([c |-> C.id, ph |-> "scan", n |-> n, k |-> 0,
-                              bad |-> [i \in 1..Len(Behind(C, a, b)) |-> Behind(C, a, b)[i] - Limit(C)],
-                              ex |-> hi + 1 - Limit(C), img |-> IF hi >= 2 * Limit(C) THEN 1 ELSE 0])>>)
-  ELSE TRUE
-Survey == Report
+\* survey: one line per scan step at which the line bound is exceeded.  The data bits sampled when the run-in completes
+\* in step n are judged in the state of step n itself (Rightward, checked by the model checking run, makes the last bit
+\* the worst), so the survey does not walk through the bits; a search that has left the line altogether is not followed
+\* any further (a wrapped search limit would be followed for 2^31 steps).
+LastBad(c, m) == DataBits(c) > 0 /\ ByteHi(c, BitLast(c, m, DataBits(c) - 1)) >= Limit(c)
+
+ReportBits(c, m) ==
+  LET j == FirstBadBit(c, m)
+      h == ByteHi(c, BitLast(c, m, DataBits(c) - 1))
+      b == Behind(c, BitFirst(c, m, j), BitLast(c, m, j)) IN
+  PrintT(<<"TR", ToJson([c |-> c.id, ph |-> "bits", n |-> m, k |-> j,
+                         bad |-> [i \in 1..Len(b) |-> b[i] - Limit(c)],
+                         ex |-> h + 1 - Limit(c), img |-> IF h >= 2 * Limit(c) THEN 1 ELSE 0])>>)
+
+ReportScan ==
+  LET a == IF pc = "pro" THEN 0 ELSE ScanFirst(C, n)
+      b == IF pc = "pro" THEN Window - 1 ELSE ScanLast(C, n)
+      s == Behind(C, a, b) IN
+  PrintT(<<"TR", ToJson([c |-> C.id, ph |-> "scan", n |-> n, k |-> 0,
+                         bad |-> [i \in 1..Len(s) |-> s[i] - Limit(C)],
+                         ex |-> hi + 1 - Limit(C), img |-> IF hi >= 2 * Limit(C) THEN 1 ELSE 0])>>)
+
+Survey ==
+  /\ pc # "bits"
+  /\ (pc = "scan" /\ LastBad(C, n)) => ReportBits(C, n)
+  /\ (pc \in {"pro", "scan"} /\ Bad) => ReportScan
+  /\ ~(pc = "scan" /\ lo >= Limit(C))
 =============================================================================
